@@ -156,6 +156,24 @@ MatMulI(A, B, r, s, t) ==      \* A is r x s, B is s x t
   IN  EagerM([i \in 1..r |-> [j \in 1..t |-> Dot(i, j, 1)]])
 IdentI(n) == EagerM([i \in 1..n |-> [j \in 1..n |-> IF i = j THEN 1 ELSE 0]])
 
+(* ----------------------------- data type of the fill --------------------- *)
+\* "fills the remainder with the constant value": the pad constant is a value of the data type of the RESULT
+\* (for ResizingOperator: of the range, whatever the data type of the domain is).  The reference decides the padded
+\* values exactly when the constant is representable in that type; otherwise the fill is whatever NumPy's conversion
+\* gives, which only the numpy.pad cross-check judges.  Type classes: "int", "f32", "f64", "c64", "c128".
+RECURSIVE IsPow2(_)
+IsPow2(d) == d = 1 \/ (d > 1 /\ d % 2 = 0 /\ IsPow2(d \div 2))
+InF32(q) == IsPow2(q[2]) /\ Abs(q[1]) < 16777216            \* 24-bit significand (exponent range not an issue here)
+InF64(q) == IsPow2(q[2])                                     \* every dyadic number TLC can hold is a float64
+Representable(c, dt) ==
+  CASE dt = "int" -> c[2] = QZero /\ c[1][2] = 1
+    [] dt = "f32" -> c[2] = QZero /\ InF32(c[1])
+    [] dt = "f64" -> c[2] = QZero /\ InF64(c[1])
+    [] dt = "c64" -> InF32(c[1]) /\ InF32(c[2])
+    [] OTHER      -> InF64(c[1]) /\ InF64(c[2])
+\* the operator (or array map) is linear iff it does not pad with a non-zero constant - judged on the constant itself
+IsLinearResize(mode, c) == mode # "constant" \/ c = CZero
+
 (* ----------------------------- operator geometry ------------------------ *)
 \* ResizingOperator on a uniform partition [lo, hi] with n cells per axis: the range keeps the cell side
 \* h = (hi - lo) / n, gains o cells on the left when growing and loses o cells there when shrinking.
